@@ -226,7 +226,6 @@ class Driver:
 def _winit():
     import logging
     logging.disable(logging.CRITICAL)
-    sys.setrecursionlimit(10000)
 
 
 def _wrun(args):
